@@ -753,7 +753,9 @@ def monitor(obs, spec):
                                 % (ww, n, waiting, len(execu)), dict(log_index=idx)))
             for ww, n in lims.items():
                 if n is None:
-                    waiting = [q for q, a in alive.items() if a == "started" and wf2[q] == ww]
+                    # (a run cancelled by cancel_run() before its first step ends without executing one, and an
+                    # unlimited instance has no semaphore segment that would show its end)
+                    waiting = [q for q, a in alive.items() if a == "started" and wf2[q] == ww and q not in soft]
                     if waiting:
                         out.append(("C30/unlimited-instance-waits",
                                     "instance %d (no limit): runs %s have not started executing"
